@@ -144,6 +144,8 @@ Definition last_row (utf8 : bool) (row : crow) : result (crow * Z * option crun)
             let z_text := last_text in
             let new_row := removelast new_row in
             let nlast_cols := text_width utf8 nlast_text in
+            (* only zero-width characters before Z: no Y to slide it into place with *)
+            if nlast_cols =? 0 then Ok (row, 0, None) else
             let '(nlast_offs, y_col) := calc_text_pos utf8 nlast_text (nlast_cols - 1) in
             let y_text := dropz nlast_offs nlast_text in
             let new_row := if nlast_offs =? 0 then new_row else new_row ++ [(y_attr, y_cs, takez nlast_offs nlast_text)] in
@@ -155,6 +157,7 @@ Definition last_row (utf8 : bool) (row : crow) : result (crow * Z * option crun)
         let z_text := dropz last_offs last_text in
         let pre := takez last_offs last_text in
         let nlast_cols := text_width utf8 pre in
+        if nlast_cols =? 0 then Ok (row, 0, None) else
         let '(nlast_offs, y_col) := calc_text_pos utf8 pre (nlast_cols - 1) in
         let y_text := dropz nlast_offs pre in
         let new_row := if nlast_offs =? 0 then new_row else new_row ++ [(z_attr, z_cs, takez nlast_offs last_text)] in
@@ -179,6 +182,10 @@ Definition set_cursor_position (partial : bool) (cy x y : Z) : list tok :=
 
 (* run.translate(UNPRINTABLE_TRANS_TABLE): control characters become '?' *)
 Definition trans_chr (c : chr) : chr := if fst c <? 32 then (63, 1) else c.
+(* draw_screen, "unprintable" translation of a run: C0 control characters take no columns in UTF-8 (they are
+   dropped) and one column otherwise (shown as "?") *)
+Definition trans_text (utf8 : bool) (text : list chr) : list chr :=
+  if utf8 then filter (fun ch : chr => negb (fst ch <? 32)) text else map trans_chr text.
 Definition ch_tok (c : chr) : tok := TCh (fst c) (snd c).
 
 (* state threaded through the runs of the rows: last_attributes, first, last_charset_flag *)
@@ -189,7 +196,7 @@ Definition cs_tok (cs : Z) : tok := if cs =? 0 then TSi else if cs =? 2 then TIb
 (* body of "for a, cs, run in row" *)
 Definition emit_run (c : cfg) (st : rstate) (r : crun) : list tok * rstate :=
   let '(a, cs, text) := r in
-  let text' := if cs =? 2 then text else map trans_chr text in
+  let text' := if cs =? 2 then text else trans_text (g_utf8 c) text in
   let ta := if r_last st =? a then [] else attr_to_escape c a in
   let switch := negb (g_utf8 c) && (r_first st || negb (r_lcs st =? cs)) in
   let tc := if switch then (if r_lcs st =? 2 then [TIbmOff] else []) ++ [cs_tok cs] else [] in
@@ -206,7 +213,8 @@ Fixpoint emit_runs (c : cfg) (st : rstate) (row : crow) : list tok * rstate :=
 
 (* "if ins:" block *)
 Definition emit_ins (c : cfg) (st : rstate) (back : Z) (ins : crun) : list tok :=
-  let '(ia, ics, itext) := ins in
+  let '(ia, ics, itext0) := ins in
+  let itext := if ics =? 2 then itext0 else trans_text (g_utf8 c) itext0 in
   repeat TBs (Z.to_nat back) ++ attr_to_escape c ia
   ++ (if negb (g_utf8 c) then (if r_lcs st =? 2 then [TIbmOff] else []) ++ [cs_tok ics] else [])
   ++ [TIrmOn] ++ map ch_tok itext ++ [TIrmOff]
